@@ -327,6 +327,8 @@ MONITORED_PROGS = [
     ('shared', [dict(progs.phase(1), plugs=[['a0', 0, True]]), dict(progs.phase(2), plugs=[['a0', 0, True]], monitored=True)]),
     ('two-plugs', [dict(progs.phase(1), plugs=[['a0', 0, True], ['a1', 1, True, 'ph']], monitored=True), dict(progs.phase(2), plugs=[['b', 1, True]])]),
     ('not-passed', [dict(progs.phase(1), plugs=[['a0', 0, False]], monitored=True)]),
+    ('stacked', [dict(progs.phase(1), plugs=[['a0', 0, True]], monitored=2)]),
+    ('stacked-two-plugs', [dict(progs.phase(1), plugs=[['a0', 0, True], ['a1', 1, False]], monitored=2)]),
 ]
 
 
